@@ -381,6 +381,61 @@ def judged_in_callers(ctx: Ctx, f: FunctionInfo) -> bool:
     return ctx.prog.is_transparent(f) and bool(owner_tops(ctx, f))
 
 
+MUTATORS = {"setdefault", "update", "append", "extend", "add", "pop", "clear", "move_to_end", "popitem", "insert", "remove", "discard",
+            "appendleft", "put", "put_nowait", "__setitem__"}
+
+
+def state_writes(ctx: Ctx, f: FunctionInfo) -> List[Tuple[Node, str]]:
+    """Sites where f (its nested functions and the helpers analysed in place included) writes state that outlives the call:
+    a store to / in-place mutation of an attribute of `self` / `cls`, of a class of the package (`Table._cache[k] = v`), or of
+    a module-level variable (`global X; X = ...`, `_REGISTRY[k] = v`, `_REGISTRY.setdefault(...)`)."""
+    out: List[Tuple[Node, str]] = []
+    classes = {c.name for c in ctx.prog.classes.values()}
+    mod_globals = set(f.module.consts) | {n for st in f.module.tree.body if isinstance(st, (ast.Assign, ast.AnnAssign))
+                                          for t in (st.targets if isinstance(st, ast.Assign) else [st.target]) if isinstance(t, ast.Name)
+                                          for n in [t.id]}
+
+    def root_of(e: ast.AST) -> Tuple[Optional[str], int]:
+        depth = 0
+        while isinstance(e, (ast.Attribute, ast.Subscript)):
+            e = e.value
+            depth += 1
+        return (e.id if isinstance(e, ast.Name) else None), depth
+
+    for fn in [f] + list(getattr(f, "nested", {}).values()):
+        declared_global = {n for st in ast.walk(fn.node) if isinstance(st, ast.Global) for n in st.names}
+        locals_ = {p.name for p in fn.params}
+        g = ctx.cfg(fn)
+        for n in g.nodes:
+            if n.ast is None or n.id not in g.reachable():
+                continue
+            if n.kind == "stmt" and isinstance(n.ast, (ast.Assign, ast.AugAssign, ast.AnnAssign, ast.Delete)):
+                tgs = n.ast.targets if isinstance(n.ast, (ast.Assign, ast.Delete)) else [n.ast.target]
+                for t in tgs:
+                    for tt in (t.elts if isinstance(t, (ast.Tuple, ast.List)) else [t]):
+                        root, depth = root_of(tt)
+                        if root is None:
+                            continue
+                        if depth == 0:
+                            if root in declared_global:
+                                out.append((n, f"module variable `{root}`"))
+                            continue
+                        if root in ("self", "cls") or root in classes:
+                            out.append((n, f"`{norm_text(tt)[:50]}`"))
+                        elif root in mod_globals and root not in locals_ and not ctx.rd(fn).reaching(n.id, root):
+                            out.append((n, f"module-level `{norm_text(tt)[:50]}`"))
+            if n.kind == "call" and isinstance(n.ast, ast.Call) and isinstance(n.ast.func, ast.Attribute) and n.ast.func.attr in MUTATORS:
+                recv = n.ast.func.value
+                root, depth = root_of(recv)
+                if root is None:
+                    continue
+                if (root in ("self", "cls") or root in classes) and depth >= 1:
+                    out.append((n, f"`{norm_text(n.ast)[:50]}`"))
+                elif root in mod_globals and root not in locals_ and not ctx.rd(fn).reaching(n.id, root) and root not in ("logger",):
+                    out.append((n, f"module-level `{norm_text(n.ast)[:50]}`"))
+    return out
+
+
 def effective_compare(ctx: Ctx, f: FunctionInfo, b: Node):
     """The comparison a branch decides: the branch's own Compare, or - for `flag = a < b ... if flag:` - the Compare
     assigned to the flag when that assignment is its only reaching definition.  Returns (Compare, node id where its
